@@ -234,6 +234,9 @@ class BuildDirector(SectionLineParser):
                 self._tag_nodes(molecule, "rw_options",
                                 self.rw_options[(molecule.mol_name, mol_idx)],
                                 molecule.mol_name)
+            # templates of build files read before are kept
+            for graph_hash, template in getattr(molecule, "templates", {}).items():
+                self.templates.setdefault(graph_hash, template)
             molecule.templates = self.templates
 
         super().finalize(lineno=lineno)
